@@ -48,7 +48,9 @@ RULE = (
     "items of datetime/date/time-of-day/number data; default, own TimeScale or own LinearScale; "
     "directions, sizes, engine options, colours, latex options) and a seeded interleaving of 6-14 "
     "CONSTRUCT/EXPORT/EXPORT_FILE/REPLACE/CLOCK_ADVANCE operations with injected disk errors (ENOSPC/"
-    "EIO at open or as a torn write), latexmk failures and clock jumps. Oracle: every export outcome "
+    "EIO at open, as a torn write, or at copy2), latexmk failures (non-zero exit, missing), clock jumps and "
+    "aborts (SimAbort/KeyboardInterrupt/MemoryError raised at a seeded fraction of the line events of an "
+    "export or a construction). Oracle: every export outcome "
     "(returned document, file bytes, pdf bytes, or exception type) equals that of the same spec "
     "constructed and exported alone in a pristine forked child replaying the same clock readings; "
     "operations hit by an injected fault are exempt, the next clean export is checked in full. "
